@@ -221,6 +221,23 @@ pub fn scenario(rng: &mut Rng) -> Scenario {
                 for _ in 0..k {
                     let mut c = gen_cmd(rng, true, &hot, ds);
                     c.session = session;
+                    // now and then a command line far longer than usual (beyond 4 KiB / 8 KiB / 64 KiB) with the same
+                    // meaning: blanks between the words, zeros in front of a decimal number
+                    if rng.chance(1, 10) {
+                        let n = *rng.pick(&[4090usize, 4100, 8190, 8200, 70000]);
+                        if rng.chance(1, 2) {
+                            if let Some(p) = c.text.find(' ') {
+                                c.text.insert_str(p, &" ".repeat(n));
+                            }
+                        } else {
+                            // the last token, when it is a plain decimal number
+                            let start = c.text.rfind(|ch: char| !ch.is_ascii_digit()).map(|p| p + 1).unwrap_or(0);
+                            let before_ok = start == 0 || matches!(c.text.as_bytes()[start - 1], b' ' | b'>' | b':');
+                            if start < c.text.len() && before_ok {
+                                c.text.insert_str(start, &"0".repeat(n));
+                            }
+                        }
+                    }
                     stdin.extend_from_slice(c.text.as_bytes());
                     stdin.push(b'\n');
                     cmds.push(c);
